@@ -62,7 +62,32 @@ record [kxops] of coq/Base/KernelOpsX.v which extends [kops] by k_fail / k_unwra
    method that returns a value must not assign to self;
  * EXTERN functions of a unit, and the functions / methods declared without body in its PRELUDE (items of other crates),
    are Section variables ext_<Type>_<fn> of the generated file, FOREIGN types are Section variables T_<Type>.
-Anything else (closures elsewhere, while, string operations, trait objects, ...) is outside the subset: if a TARGET or
+Third part of the subset (units with "sets": the dependency orderers, the GDSII exporter / importer, conv/raw.rs, conv/proto.rs; over
+[kxops] plus the finite sets / maps of coq/Base/KernelOpsS.v):
+ * `HashSet<K>` / `HashMap<K, V>` / `SlotMap<K, V>` are ABSTRACT: values of the carrier of a Section variable sops_<K> : ksetops K /
+   mops_<K>_<V> : kmapops K V (declared after the types it mentions); `new()` / `with_capacity(n)` -> ks_empty / km_empty,
+   `s.contains(x)` -> ks_contains, `m.get(k)` -> km_get (pure), `s.insert(x);` `s.remove(x);` `m.insert(k, v);` as statements assign
+   ks_insert / ks_remove / km_insert to the place; `if [!] s.insert(x) {..}` / `if [!] s.remove(x) {..}` (the call is the WHOLE condition):
+   the value is read off the set BEFORE the update (insert: not contained; remove: contained), then the update; iteration over a set /
+   map is outside the subset; `PtrList<T>` is a Vec<Ptr<T>>; `[T; N]` for N other than 2 is a list;
+ * ONE parameter borrowed `&mut` (self or another) in a function returning `()` / `Result<()>` whose body changes it (an assignment, a
+   mutator, `&mut place`, a call that changes it) or that has no body: the function returns the new value of that parameter; a call
+   statement `x.f(a)?;` / `T::f(a, &mut x)?;` / `let r = x.f(a)?;` of such a function assigns its result to the place passed (also through
+   a `let r = &mut v[i];` alias and under `.unwrapper(self, msg)`); a `&mut` borrow of a place inside a loop makes the root of the place
+   loop state; the index expressions of `&mut v[e]` are evaluated, and the cell looked up, where the reference is TAKEN;
+ * a function that calls ITSELF: the call is a call of the Section variable rec_<Type>_<fn> of the function's own type (open
+   recursion; the tie theorems put the model at fuel f there and obtain the model at fuel S f);
+ * trait-generic code is read at one instance per unit: `P::Item` (ASSOC_INST), the type parameters of a generic function
+   (FN_GENERIC_INST); the required methods of a trait parameter and `&impl Trait` parameters are declared in the unit's prelude, once per
+   type used (the declaration is chosen by the argument types);
+ * strings: with `String` among the foreign types of a unit a string is a value of T_String; a literal is `ext_str_lit "<text>"`;
+   `use E::*;` inside a body lets the variants of E be written bare; a `for` variable that shadows a parameter / an earlier local is
+   renamed inside its loop; `..Default::default()` of a derived Default fills the fields not written; `x.into()` goes through a derived
+   `From` (derive_more on an enum: the variant with that payload) or an `impl From`; `o.unwrapper(self, msg)` / `self.unwrap(o, msg)` on an
+   Option is ok_or; `v.iter().map(|x| f(x)).collect::<Result<Vec<_>, _>>()` is k_map_m (in order, up to the first error); `v.extend(w)` appends;
+   `&[a, b, ..]` where a slice is expected is the list; methods of integers / f64 declared in the prelude (`i32::unsigned_abs`) are external;
+ * `while` / `loop` are parsed (tools/rustsubset.py) but not translated: a target containing one is reported as FAILED.
+Anything else (closures elsewhere, string operations, trait objects, ...) is outside the subset: if a TARGET or
 something it calls no longer fits, the script prints `FAILED family=<family> fn=<function>: <where and why>`, leaves that
 function out of the generated file (so the tie lemmas about it no longer build) and exits 1 (a broken tie, DESIGN.md 2.3).
 
@@ -120,6 +145,54 @@ pub struct proto__Rectangle { pub net: String, pub lower_left: Option<proto__Poi
 // gds.rs: `fn import_element_layer(&mut self, elem: &impl gds21::HasLayer)`, at the type of the element import_boundary passes
 impl GdsImporter { fn import_element_layer(&mut self, elem: &GdsBoundary) -> LayoutResult<(LayerKey, LayerPurpose)>; }
 """
+ORDER_PRELUDE = """
+// the trait `DepOrder` (layout21utils/src/dep_order.rs) as seen from the generic helper: the required methods of P
+impl P {
+    fn process(item: &Item, orderer: &mut DepOrderer<P>) -> Result<(), Error>;
+    fn fail() -> Result<(), Error>;
+}
+"""
+TORDER_PRELUDE = """
+// layout21utils/src/dep_order.rs: the generic helper at P = PlaceOrder (its own tie is in the unit "order")
+impl DepOrderer { fn push(&mut self, item: &Placeable) -> LayoutResult<()>; }
+"""
+TPORDER_PRELUDE = """
+// layout21utils/src/dep_order.rs: the generic helper at P = CellOrder (its own tie is in the unit "order")
+impl DepOrderer { fn push(&mut self, item: &Ptr<Cell>) -> LayoutResult<()>; }
+"""
+TCONVI_PRELUDE = """
+// conv/raw.rs: `fn db_units(&self, pt: impl Into<UnitSpeced>) -> DbUnits`, at the type instance_intersects passes
+impl RawExporter { fn db_units(&self, pt: PrimPitches) -> DbUnits; }
+// cell.rs, outline.rs (their own ties: family tetris_place)
+impl Cell { fn outline(&self) -> LayoutResult<&Outline>; }
+impl Outline { fn max(&self, dir: Dir) -> PrimPitches; }
+"""
+RAWGDSX_PRELUDE = """
+// layout21raw/src/data.rs: the layer table (a slot map and hash maps inside), as far as export_layerspec uses it
+impl Layers { fn get(&self, key: LayerKey) -> Option<&Layer>; }
+impl Layer { fn num(&self, purpose: &LayerPurpose) -> Option<i16>; }
+"""
+RAWGDSI_PRELUDE = """
+// gds.rs: `fn import_element_layer(&mut self, elem: &impl gds21::HasLayer)`, at the types of the elements translated here
+impl GdsImporter { fn import_element_layer(&mut self, elem: &GdsBox) -> LayoutResult<(LayerKey, LayerPurpose)>; }
+impl GdsImporter { fn import_element_layer(&mut self, elem: &GdsPath) -> LayoutResult<(LayerKey, LayerPurpose)>; }
+// core: i32::unsigned_abs, f64::abs
+impl i32 { fn unsigned_abs(self) -> u32; }
+impl f64 { fn abs(self) -> f64; }
+"""
+TPROTO_PRELUDE = """
+// the protobuf schema (vlsir::tetris), as far as the translated converters use it
+pub struct tproto__Outline { pub x: Vec<i64>, pub y: Vec<i64>, pub metals: i64 }
+"""
+TCONVP_PRELUDE = """
+// conv/raw.rs: `fn db_units(&self, pt: impl Into<UnitSpeced>) -> DbUnits`, at the type export_cell_layer_period passes
+impl RawExporter { fn db_units(&self, pt: PrimPitches) -> DbUnits; }
+// stack.rs / tracks.rs: the operations on a period and on a track (their own ties: family tetris_tracks)
+impl MetalLayer { fn to_layer_period(&self, index: usize, stop: Int) -> LayoutResult<LayerPeriod>; }
+impl LayerPeriod { fn block(&mut self, start: DbUnits, stop: DbUnits, src: &Ptr<Instance>) -> TrackResult<()>; }
+impl Track { fn cut(&mut self, start: DbUnits, stop: DbUnits, src: &TrackCross) -> TrackResult<()>; }
+impl Track { fn set_net(&mut self, at: DbUnits, assn: &Assign) -> TrackResult<()>; }
+"""
 UNITS = [
     {"name": "raw", "out": "KernelsGen.v", "files": FILES, "alias_only": ALIAS_ONLY, "targets": TARGETS, "extern_args": EXTERN,
      "xops": False},
@@ -161,6 +234,114 @@ UNITS = [
      ],
      "generic_inst": {}, "foreign": {"LefDecimal", "LayerKey"}, "extern": {"GdsImporter::import_point_vec"},
      "result_aliases": {"LayoutResult"}, "skip_recv": {"self.ctx"}},
+    # ---- third part of the subset ("sets": HashSet / HashMap, `&mut` parameters, open recursion): the dependency orderers (C17)
+    {"name": "order", "out": "KernelsOrderGen.v", "xops": True, "sets": True,
+     "files": ["layout21utils/src/dep_order.rs"], "alias_only": set(), "prelude": ORDER_PRELUDE,
+     "targets": [("order_generic", "DepOrderer::push"), ("order_generic", "DepOrderer::order")],
+     "generic_inst": {"DepOrderer": ["P"]}, "foreign": {"P", "Item"}, "assoc_inst": {"P::Item": "Item"},
+     "extern": set(), "result_aliases": set(), "skip_recv": set()},
+    {"name": "raworder", "out": "KernelsRawOrderGen.v", "xops": True, "sets": True,
+     "files": [("layout21raw/src/data.rs", {"Library", "Cell", "Layout", "Instance", "DepOrder"}),
+               ("layout21raw/src/gds.rs", {"GdsDepOrder"}),
+               ("gds21/src/data.rs", {"GdsLibrary", "GdsStruct", "GdsElement", "GdsStructRef", "GdsArrayRef"})],
+     "alias_only": set(), "prelude": "",
+     "targets": [("order_raw", "DepOrder::push"), ("order_raw", "DepOrder::order"),
+                 ("order_raw", "GdsDepOrder::get"), ("order_raw", "GdsDepOrder::push"), ("order_raw", "GdsDepOrder::order")],
+     "generic_inst": {}, "foreign": {"String"}, "aliases": {"str": "String"},
+     "extern": set(), "result_aliases": {"LayoutResult"}, "skip_recv": set()},
+    {"name": "torder", "out": "KernelsTetrisOrderGen.v", "xops": True, "sets": True,
+     "files": [("layout21tetris/src/library.rs", {"Library", "DepOrder"}), ("layout21tetris/src/cell.rs", {"Cell"}),
+               ("layout21tetris/src/layout.rs", {"Layout"}), ("layout21tetris/src/instance.rs", {"Instance"}),
+               ("layout21tetris/src/placement.rs", {"Placeable", "Place", "RelativePlace", "RelAssign", "Side", "Align", "Separation", "SepBy"}),
+               ("layout21tetris/src/coords.rs", {"Xy", "PrimPitches", "DbUnits", "LayerPitches", "UnitSpeced"}),
+               ("layout21raw/src/geom.rs", {"Dir"}),
+               ("layout21tetris/src/array.rs", {"ArrayInstance"}), ("layout21tetris/src/group.rs", {"GroupInstance"}),
+               ("layout21tetris/src/placer.rs", {"PlaceOrder"})],
+     "alias_only": set(), "prelude": TORDER_PRELUDE,
+     "targets": [("order_tetris", "DepOrder::push"), ("order_tetris", "DepOrder::order"),
+                 ("order_tetris", "PlaceOrder::process"), ("order_tetris", "PlaceOrder::fail")],
+     "generic_inst": {"Xy": ["PrimPitches"], "Place": ["Xy<PrimPitches>"]}, "foreign": {"DepOrderer"},
+     "extern": set(), "result_aliases": {"LayoutResult"}, "skip_recv": set()},
+    {"name": "tporder", "out": "KernelsTetrisProtoOrderGen.v", "xops": True, "sets": True,
+     "files": [("layout21tetris/src/cell.rs", {"Cell"}), ("layout21tetris/src/layout.rs", {"Layout"}),
+               ("layout21tetris/src/instance.rs", {"Instance"}), ("layout21tetris/src/conv/proto.rs", {"CellOrder"})],
+     "alias_only": set(), "prelude": TPORDER_PRELUDE,
+     "targets": [("order_tetris", "CellOrder::process"), ("order_tetris", "CellOrder::fail")],
+     "generic_inst": {}, "foreign": {"DepOrderer"},
+     "extern": set(), "result_aliases": {"LayoutResult"}, "skip_recv": set()},
+    # ---- conv/raw.rs (C08): Xy<T> is read at one instance per unit, hence two units
+    {"name": "tconvx", "out": "KernelsTetrisConvXGen.v", "xops": True, "sets": True,
+     "files": [("layout21tetris/src/conv/raw.rs", {"RawExporter"}), ("layout21tetris/src/validate.rs", {"ValidStack", "ValidMetalLayer"}),
+               ("layout21tetris/src/stack.rs", {"MetalLayer"}), ("layout21tetris/src/tracks.rs", {"TrackRef", "TrackCross"}),
+               ("layout21tetris/src/coords.rs", {"Xy", "DbUnits", "Int"}), ("layout21raw/src/geom.rs", {"Dir"})],
+     "alias_only": set(), "prelude": "",
+     "targets": [("tetris_conv", "RawExporter::track_cross_xy")],
+     "generic_inst": {"Xy": ["DbUnits"]}, "foreign": set(),
+     "extern": {"ValidStack::metal", "ValidMetalLayer::center"}, "result_aliases": {"LayoutResult"}, "skip_recv": {"self.ctx"},
+     # the external `center` must know WHICH layer it is called on: the layer's index stays in the generated record
+     "keep_fields": {"ValidMetalLayer": ["index"]}},
+    {"name": "tconvi", "out": "KernelsTetrisConvIGen.v", "xops": True, "sets": True,
+     "files": [("layout21tetris/src/conv/raw.rs", {"RawExporter"}), ("layout21tetris/src/validate.rs", {"ValidMetalLayer"}),
+               ("layout21tetris/src/stack.rs", {"MetalLayer"}), ("layout21tetris/src/instance.rs", {"Instance"}),
+               ("layout21tetris/src/placement.rs", {"Place"}),
+               ("layout21tetris/src/coords.rs", {"Xy", "DbUnits", "PrimPitches", "Int"}), ("layout21raw/src/geom.rs", {"Dir"})],
+     "alias_only": set(), "prelude": TCONVI_PRELUDE,
+     "targets": [("tetris_conv", "RawExporter::instance_intersects")],
+     "generic_inst": {"Xy": ["PrimPitches"], "Place": ["Xy<PrimPitches>"]}, "foreign": {"Cell", "Outline", "RelativePlace"},
+     "extern": set(), "result_aliases": {"LayoutResult"}, "skip_recv": {"self.ctx"}},
+    # ---- layout21raw/src/gds.rs, exporter side (C07)
+    {"name": "rawgdsx", "out": "KernelsRawGdsExportGen.v", "xops": True, "sets": True,
+     "files": [("layout21raw/src/gds.rs", {"GdsExporter", "Shape", "Rect", "Path", "Polygon"}),
+               ("layout21raw/src/geom.rs", {"Point", "Rect", "Path", "Polygon", "Shape"}),
+               ("layout21raw/src/bbox.rs", {"BoundBox", "Vec_Point"}),
+               ("layout21raw/src/data.rs", {"Library", "Layer", "LayerPurpose", "Int"}),
+               ("gds21/src/data.rs", {"GdsPoint", "GdsBoundary", "GdsPath", "GdsLayerSpec", "GdsElement"})],
+     "alias_only": set(), "prelude": RAWGDSX_PRELUDE,
+     "targets": [("raw_gdsx", "GdsExporter::export_point"), ("raw_gdsx", "GdsExporter::export_layerspec"),
+                 ("raw_gdsx", "GdsExporter::export_shape"),
+                 ("raw_gdsx", "Rect::label_location"), ("raw_gdsx", "Path::label_location"), ("raw_gdsx", "Polygon::label_location"),
+                 ("raw_gdsx", "Shape::label_location")],
+     "generic_inst": {}, "foreign": {"Layers", "LayerKey"},
+     "extern": {"Polygon::contains", "Vec_Point::bbox", "BoundBox::center", "GdsPoint::vec"},
+     "result_aliases": {"LayoutResult"}, "skip_recv": {"self.ctx"}},
+    # ---- layout21raw/src/gds.rs, importer side (C06; import_boundary is in the unit raw2)
+    {"name": "rawgdsi", "out": "KernelsRawGdsImportGen.v", "xops": True, "sets": True,
+     "files": [("layout21raw/src/gds.rs", {"GdsImporter"}),
+               ("layout21raw/src/geom.rs", {"Point", "Rect", "Path", "Polygon", "Shape"}),
+               ("layout21raw/src/data.rs", {"Element", "Instance", "LayerPurpose", "Int"}),
+               ("gds21/src/data.rs", {"GdsPoint", "GdsBox", "GdsPath", "GdsStructRef", "GdsStrans", "GdsUnits"}),
+               ("layout21raw/src/data.rs", {"Units"})],
+     "alias_only": set(), "prelude": RAWGDSI_PRELUDE,
+     "targets": [("raw_gdsi", "GdsImporter::import_point"), ("raw_gdsi", "GdsImporter::import_point_vec"),
+                 ("raw_gdsi", "GdsImporter::import_box"), ("raw_gdsi", "GdsImporter::import_path"),
+                 ("raw_gdsi", "GdsImporter::import_instance"), ("raw_gdsi", "GdsImporter::import_units")],
+     "generic_inst": {}, "foreign": {"String", "LayerKey", "Cell"}, "aliases": {"str": "String"},
+     "extern": set(), "result_aliases": {"LayoutResult"}, "skip_recv": {"self.ctx"}},
+    # ---- layout21tetris/src/conv/proto.rs, outline.rs (C19)
+    {"name": "tproto", "out": "KernelsTetrisProtoGen.v", "xops": True, "sets": True,
+     "files": [("layout21tetris/src/conv/proto.rs", {"ProtoExporter", "ProtoLibImporter"}), ("layout21tetris/src/outline.rs", {"Outline"}),
+               ("layout21tetris/src/coords.rs", {"PrimPitches", "Int"}), ("layout21raw/src/geom.rs", {"Dir"})],
+     "alias_only": set(), "prelude": TPROTO_PRELUDE,
+     "targets": [("tetris_proto", "ProtoExporter::export_outline"), ("tetris_proto", "ProtoLibImporter::import_outline"),
+                 ("tetris_proto", "Outline::from_prim_pitches")],
+     "generic_inst": {}, "foreign": set(),
+     "fn_generic_inst": {"ProtoExporter::export_dimensions": {"T": "PrimPitches"}, "ProtoExporter::export_dimension": {"T": "PrimPitches"}},
+     "extern": set(), "result_aliases": {"LayoutResult"}, "skip_recv": {"self.ctx"}},
+    # ---- conv/raw.rs (C08): one period of one layer of one cell (blockages, cuts with their span, assignments with their vias)
+    {"name": "tconvp", "out": "KernelsTetrisConvPGen.v", "xops": True, "sets": True,
+     "files": [("layout21tetris/src/conv/raw.rs", {"RawExporter", "TempPeriod", "TempCellLayer", "TempCell"}),
+               ("layout21tetris/src/validate.rs", {"ValidStack", "ValidMetalLayer", "ValidAssign"}),
+               ("layout21tetris/src/stack.rs", {"MetalLayer", "ViaLayer", "Assign", "LayerPeriod"}),
+               ("layout21tetris/src/tracks.rs", {"TrackRef", "TrackCross"}),
+               ("layout21tetris/src/coords.rs", {"Xy", "DbUnits", "PrimPitches", "Int"}),
+               ("layout21raw/src/geom.rs", {"Dir", "Point", "Rect", "Polygon", "Path", "Shape"}),
+               ("layout21raw/src/data.rs", {"Element", "LayerPurpose"})],
+     "alias_only": set(), "prelude": TCONVP_PRELUDE,
+     "targets": [("tetris_period", "RawExporter::assign_track"), ("tetris_period", "RawExporter::export_cell_layer_period")],
+     "generic_inst": {"Xy": ["DbUnits"]},
+     "foreign": {"Track", "AssignKey", "LayerKey", "String", "Instance", "Layout", "Library"},
+     "extern": {"RawExporter::track_cross_xy", "RawExporter::export_track", "ValidStack::via_from"},
+     "result_aliases": {"LayoutResult", "TrackResult"}, "skip_recv": {"self.ctx"}},
 ]
 
 INT_TAG = {"isize": "Isize", "usize": "Usize", "i128": "I128", "u64": "U64", "i64": "I64", "i32": "I32", "u32": "U32",
@@ -182,8 +363,9 @@ class Val:
 
 class Ctx:
     """what `Self`, the type parameters and the associated types mean at some place"""
-    def __init__(self, self_ty=None, impl_generics=(), assoc=None, fn_generics=()):
+    def __init__(self, self_ty=None, impl_generics=(), assoc=None, fn_generics=(), fn_name=None):
         self.self_ty, self.impl_generics, self.assoc, self.fn_generics = self_ty, list(impl_generics), assoc or {}, list(fn_generics)
+        self.fn_name = fn_name
 
 OP_METHOD = {"+": "add", "-": "sub", "*": "mul", "/": "div", "%": "rem"}
 DERIVABLE = {"add": ("Add", "AddAssign"), "sub": ("Sub", "SubAssign")}
@@ -198,6 +380,9 @@ class World:
         self.generic_inst = {k: [parse_type_text(t) for t in v] for k, v in self.unit.get("generic_inst", {}).items()}
         self.foreign = set(self.unit.get("foreign", ()))
         self.result_aliases = set(self.unit.get("result_aliases", ()))
+        for k, v in self.unit.get("aliases", {}).items():
+            self.aliases[k] = parse_type_text(v)
+        self.assoc_inst = {k: parse_type_text(v) for k, v in self.unit.get("assoc_inst", {}).items()}
     def load(self, rel, only=None, text=None):
         if text is None:
             path = os.path.join(REPO, rel)
@@ -257,12 +442,15 @@ class World:
                     f.clash = True
                     if f.trait is not None and f.trait[0] == "gen":
                         f.uname = name + "_" + "_".join(type_key(a) for a in f.trait[2])
+                    elif self.unit.get("sets") and all(q[1] is not None for q in f.params if q[0] != "self"):
+                        # several declarations of one method in the prelude (a parameter `&impl Trait` at each type used)
+                        f.uname = name + "__" + "_".join(type_key(q[1]) for q in f.params if q[0] != "self")
                     if f.uname in seen:
                         f.uname = None
                     seen.add(f.uname)
 
     def fn_ctx(self, f):
-        return Ctx(f.self_ty, f.impl_generics, f.assoc, f.fn_generics)
+        return Ctx(f.self_ty, f.impl_generics, f.assoc, f.fn_generics, f.name)
     def struct_ctx(self, name):
         gens = self.meta.get(name, {}).get("generics", [])
         return Ctx(("gen", name, tuple(("named", g) for g in gens)) if gens else ("named", name), gens)
@@ -278,6 +466,9 @@ class World:
                         return self.resolve(self.generic_inst[st[1]][i])
             raise Unsupported("type parameter %s of a generic impl that is not instantiated for this unit (GENERIC_INST)" % n)
         if n in ctx.fn_generics:
+            inst = self.unit.get("fn_generic_inst", {}).get(ctx.fn_name, {}).get(n)
+            if inst is not None:
+                return self.resolve(parse_type_text(inst))      # a generic function read at ONE instance per unit (FN_GENERIC_INST)
             raise Unsupported("type parameter %s of a generic function" % n)
         return None
 
@@ -320,6 +511,11 @@ class World:
             if ctx is None or ctx.assoc.get(ty[1]) is None:
                 raise Unsupported("the associated type Self::%s is not defined (in the subset) in this impl" % ty[1])
             return self.resolve(ctx.assoc[ty[1]], ctx)
+        if k == "passoc":
+            key = "%s::%s" % (ty[1], ty[2])
+            if key not in self.assoc_inst:
+                raise Unsupported("the associated type %s of a type parameter is not instantiated for this unit (ASSOC_INST)" % key)
+            return self.resolve(self.assoc_inst[key])
         if k == "named":
             sub = self.tparam(ty[1], ctx)
             if sub is not None:
@@ -333,17 +529,28 @@ class World:
                 return ("res", self.resolve(args[0], ctx))
             if n == "Ptr" and len(args) == 1 and self.unit.get("xops"):
                 return ("ptr", self.resolve(args[0], ctx))
+            if self.unit.get("sets"):
+                if n == "PtrList" and len(args) == 1:
+                    return ("vec", ("ptr", self.resolve(args[0], ctx)))       # layout21utils: PtrList<T>(Vec<Ptr<T>>), used through Deref
+                if n == "HashSet" and len(args) == 1:
+                    return ("hset", self.resolve(args[0], ctx))
+                if n in ("HashMap", "SlotMap") and len(args) == 2:
+                    return ("hmap", self.resolve(args[0], ctx), self.resolve(args[1], ctx))       # (a SlotMap: lookups by key only)
             if not self.unit.get("xops"):
                 raise Unsupported("generic type %s<..> is outside the subset" % n)
             return self.nominal(n, args, ctx)
         if k == "res":
             return ("res", self.resolve(ty[1], ctx))
         if k == "arr":
+            if self.unit.get("sets") and ty[2] != 2:
+                return ("vec", self.resolve(ty[1], ctx))       # `[T; N]` for N other than 2: a list (indexing is checked)
             return ("arr", self.resolve(ty[1], ctx), ty[2])
         if k == "tup":
             return ("tup", tuple(self.resolve(t, ctx) for t in ty[1]))
-        if k in ("vec", "opt"):
+        if k in ("vec", "opt", "hset"):
             return (k, self.resolve(ty[1], ctx))
+        if k == "hmap":
+            return (k, self.resolve(ty[1], ctx), self.resolve(ty[2], ctx))
         return ty
     def resolve_or_opaque(self, ty, ctx=None):
         try:
@@ -381,7 +588,17 @@ def cty(ty):
         return "T_%s" % ty[1]
     if k == "opaque":
         return "kopaque"
+    if k == "hset":
+        return "(ks_t %s)" % opsvar(ty)
+    if k == "hmap":
+        return "(km_t %s)" % opsvar(ty)
     raise Unsupported("type %r has no Gallina rendering" % (ty,))
+
+def opsvar(ty):
+    """name of the Section variable with the operations of the finite sets / maps of this key (and value) type"""
+    if ty[0] == "hset":
+        return "sops_" + type_key(ty[1])
+    return "mops_%s_%s" % (type_key(ty[1]), type_key(ty[2]))
 
 def tag(ty):
     if ty[0] != "int" or ty[1] not in INT_TAG:
@@ -515,8 +732,10 @@ def unify(a, b):
         return a
     if a == b:
         return a
-    if a[0] == b[0] and a[0] in ("res", "opt", "vec"):
+    if a[0] == b[0] and a[0] in ("res", "opt", "vec", "hset"):
         return (a[0], unify(a[1], b[1]))
+    if a[0] == b[0] == "hmap":
+        return ("hmap", unify(a[1], b[1]), unify(a[2], b[2]))
     if a[0] == b[0] == "tup" and len(a[1]) == len(b[1]):
         return ("tup", tuple(unify(x, y) for x, y in zip(a[1], b[1])))
     raise ValueError
@@ -572,6 +791,56 @@ def useful(rows, q, tys, ctors_of):
         return any(useful(specialise(cn, len(ts), rows), [("w",)] * len(ts) + q[1:], list(ts) + tys[1:], ctors_of) for cn, ts in ctors)
     return useful([r[1:] for r in rows if r[0][0] == "w"], q[1:], tys[1:], ctors_of)
 
+def rename_var(node, old, new):
+    """rename every occurrence (binding or use) of the local `old` inside node, in place"""
+    if isinstance(node, N):
+        if node.kind == "path" and node.segs == [old]:
+            node.segs = [new]
+        if node.kind == "pvar" and node.name == old:
+            node.name = new
+        if node.kind == "if" and node.letvar == old:
+            node.letvar = new
+        for k, v in list(node.__dict__.items()):
+            if k in ("kind", "line"):
+                continue
+            if isinstance(v, tuple) and not isinstance(v, N):
+                v2 = list(v)
+                rename_var(v2, old, new)
+                # tuples hold (name, node) pairs: the nodes were renamed in place
+            else:
+                rename_var(v, old, new)
+    elif isinstance(node, (list, tuple)):
+        for x in node:
+            rename_var(x, old, new)
+
+def rename_shadowing_loops(node, bound, counter):
+    """a `for` variable that has the name of a parameter or of a local bound earlier gets a fresh name inside its loop
+    (the translation moves the rest of a block into branches and loop bodies into their own definitions: the outer name
+    must stay visible under its own name after the loop)"""
+    if isinstance(node, N):
+        if node.kind == "let":
+            rename_shadowing_loops(node.init, bound, counter)
+            pat_names(node.pat, bound)
+            return
+        if node.kind == "for":
+            rename_shadowing_loops(node.lo, bound, counter)
+            rename_shadowing_loops(node.hi, bound, counter)
+            for nm in sorted(pat_names(node.pat, set())):
+                if nm in bound:
+                    counter[0] += 1
+                    new = "%s__l%d" % (nm, counter[0])
+                    rename_var(node.pat, nm, new)
+                    rename_var(node.body, nm, new)
+            pat_names(node.pat, bound)
+            rename_shadowing_loops(node.body, bound, counter)
+            return
+        for k, v in node.__dict__.items():
+            if k not in ("kind", "line"):
+                rename_shadowing_loops(v, bound, counter)
+    elif isinstance(node, (list, tuple)):
+        for x in node:
+            rename_shadowing_loops(x, bound, counter)
+
 class FnGen:
     def __init__(self, tr, fn):
         self.tr, self.w, self.fn = tr, tr.w, fn
@@ -585,6 +854,11 @@ class FnGen:
         self.externs = self.unit.get("extern_args", {}).get(fn.name, [])
         self.mut_self = False
         self.structs_used = set()
+        self.sets = bool(self.unit.get("sets"))
+        self.mut_name = "self"
+        self.mut_params = ["self"]
+        self.glob_enums = set()
+        self.nhoist = 0
 
     def err(self, node, msg):
         raise Unsupported("%s:%d: in fn %s: %s" % (self.fn.fname, getattr(node, "line", self.fn.line), self.fn.name, msg))
@@ -607,6 +881,14 @@ class FnGen:
             self.tr.foreign_used.add(t[1])
         elif t[0] in ("arr", "vec", "opt", "res", "ptr"):
             self.note_struct(t[1])
+        elif t[0] == "hset":
+            self.note_struct(t[1])
+            if t[1] is not None:
+                self.tr.ops_used[opsvar(t)] = t
+        elif t[0] == "hmap":
+            self.note_struct(t[1]); self.note_struct(t[2])
+            if t[1] is not None and t[2] is not None:
+                self.tr.ops_used[opsvar(t)] = t
         elif t[0] == "tup":
             for x in t[1]:
                 self.note_struct(x)
@@ -778,6 +1060,15 @@ class FnGen:
             if any(v.ty is None for v in vs):
                 self.err(e, "diverging component in a tuple")
             return self.seq(vs, lambda ns: Val("P", "(" + ", ".join(ns) + ")", ("tup", tuple(v.ty for v in vs))))
+        if k == "array" and self.sets and expect is not None and expect[0] == "vec":
+            # `&[a, b, ..]` where a slice is expected: the list of the elements
+            vs = []
+            elt = expect[1]
+            for x in e.es:
+                v = self.ex(x, env, elt)
+                elt = self.same(elt, v.ty, e, "array literal")
+                vs.append(v)
+            return self.seq(vs, lambda ns: Val("P", "(" + " :: ".join(ns + ["nil"]) + ")", ("vec", elt)))
         if k == "array":
             elt = expect[1] if (expect is not None and expect[0] == "arr") else None
             if len(e.es) != 2:
@@ -819,7 +1110,17 @@ class FnGen:
             self.structs_used.add(name)
             decl = self.w.structs[name]
             given = dict(e.fields)
-            if set(given) != {f for f, _ in decl} or len(e.fields) != len(decl):
+            base = getattr(e, "base", None)
+            defaulted = []
+            if base is not None:
+                # `..Default::default()` of a derived Default: the fields not written take their default values
+                if not (self.sets and base.kind == "call" and base.path == ["Default", "default"] and not base.args
+                        and "Default" in self.w.meta[name]["derives"] and "%s::default" % name not in self.w.fns):
+                    self.err(e, "struct update syntax other than `..Default::default()` of a derived Default is outside the subset")
+                if set(given) - {f for f, _ in decl} or len(set(given)) != len(e.fields):
+                    self.err(e, "struct literal %s lists unknown or repeated fields" % name)
+                defaulted = [f for f, _ in decl if f not in given]
+            elif set(given) != {f for f, _ in decl} or len(e.fields) != len(decl):
                 self.err(e, "struct literal %s does not list exactly the declared fields" % name)
             kept = dict(self.tr.literal_fields(name))
             # Rust evaluates the field expressions in the order WRITTEN; the record is built in declaration order
@@ -831,11 +1132,21 @@ class FnGen:
                     written.append((f, v))
                 elif not self.skippable(x):
                     self.err(e, "field %s of %s has a type outside the subset and its value is not a plain string expression" % (f, name))
+            dflt = {f: self.default_term(kept[f], e) for f in defaulted if f in kept}
             def build(ns):
                 m = {f: n for (f, _), n in zip(written, ns)}
+                m.update(dflt)
                 return Val("P", "(%s%s)" % (self.mk(name), "".join(" " + m[f] for f, _ in decl if f in kept)), ("struct", name))
             return self.seq([v for _, v in written], build)
         if k == "str":
+            if self.sets and "String" in self.w.foreign and expect == ("foreign", "String"):
+                lit = e.val
+                if not (lit.startswith('"') and lit.endswith('"')) or "\\" in lit:
+                    self.err(e, "string literal with escapes / raw string where a String value is needed")
+                self.tr.externs_used.setdefault("ext_str_lit", ("String.string -> T_String", "string literals"))
+                self.tr.foreign_used.add("String")
+                self.tr.need_string = True
+                return Val("P", '(ext_str_lit "%s"%%string)' % lit[1:-1].replace('"', '""'), ("foreign", "String"))
             return Val("P", "kopaque_any", ("opaque",))
         if k == "refmut":
             return self.ex(e.e, env, expect)
@@ -1025,6 +1336,8 @@ class FnGen:
 
     def ex_path(self, e, env):
         segs = e.segs
+        if self.sets and len(segs) > 2 and all(x[:1].islower() for x in segs[:-2]):
+            segs = segs[-2:]
         if len(segs) == 1:
             nm = segs[0]
             if nm in env:
@@ -1218,7 +1531,26 @@ class FnGen:
                     and "%s::default" % head not in self.w.fns:
                 return Val("P", self.default_term(("struct", head), e), ("struct", head))
         if segs == ["Vec", "new"] and not e.args:
+            if self.sets and expect is None and getattr(self, "hint_ty", None) is not None and self.hint_ty[0] == "vec":
+                expect = self.hint_ty
             return Val("P", "nil", expect if (expect is not None and expect[0] == "vec") else ("vec", None))
+        if self.sets and len(segs) == 2 and segs[0] in ("Vec", "HashSet", "HashMap") and segs[1] in ("new", "with_capacity") \
+                and len(e.args) == (1 if segs[1] == "with_capacity" else 0):
+            if e.args:
+                c = self.ex(e.args[0], env, ("int", "usize"))
+                if c.kind != "P":
+                    self.err(e, "the capacity of %s::with_capacity must be an expression without effects" % segs[0])
+            kind = {"Vec": "vec", "HashSet": "hset", "HashMap": "hmap"}[segs[0]]
+            if expect is None:
+                expect = getattr(self, "hint_ty", None)      # `let x = HashMap::new();`: the type of the field / parameter x goes to
+            if expect is None or expect[0] != kind or any(t is None for t in expect[1:]):
+                self.err(e, "the element type of this %s::%s() cannot be determined here (annotate the `let`)" % (segs[0], segs[1]))
+            self.note_struct(expect)
+            if kind == "vec":
+                return Val("P", "nil", expect)
+            return Val("P", "(%s_empty %s)" % ("ks" if kind == "hset" else "km", opsvar(expect)), expect)
+        if self.sets and segs == ["Ptr", "clone"] and len(e.args) == 1:
+            return self.ex(e.args[0], env, expect)
         # tuple struct / enum variant
         head = None
         if len(segs) == 1:
@@ -1301,7 +1633,7 @@ class FnGen:
                 return self.emit_call(hit[0], e.args, None, env, e, arg_vals=[a])
         return self.emit_call(self.callee(qn, e), e.args, None, env, e)
 
-    TRANSPARENT = ("iter", "iter_mut", "into_iter", "as_ref", "as_mut", "to_owned", "borrow", "borrow_mut", "deref")
+    TRANSPARENT = ("iter", "iter_mut", "into_iter", "as_ref", "as_mut", "to_owned", "borrow", "borrow_mut", "deref", "as_slice")
 
     def ex_mcall(self, e, env, expect):
         name = e.name
@@ -1313,6 +1645,12 @@ class FnGen:
             if c.ty != ("bool",):
                 self.err(e, "self.assert on a condition of type %r" % (c.ty,))
             return self.seq([c], lambda ns: Val("M", "(if %s then %s else (k_fail xops))" % (ns[0], self.ret("tt")), ("res", ("unit",))))
+        if self.sets and name == "unwrap" and e.recv.kind == "path" and e.recv.segs == ["self"] and len(e.args) == 2 and self.skippable(e.args[1]):
+            # ErrorHelper::unwrap(opt, msg): the value of a Some, the error for a None
+            o = self.ex(e.args[0], env)
+            if o.ty is None or o.ty[0] != "opt":
+                self.err(e, "self.unwrap on a value of type %r" % (o.ty,))
+            return self.seq([o], lambda ns: Val("M", "(match %s with Some x__ => %s | None => (k_fail xops) end)" % (ns[0], self.ret("x__")), ("res", o.ty[1])))
         if self.x and name == "try_into" and not e.args:
             r = self.ex(e.recv, env)
             to = expect[1] if (expect is not None and expect[0] == "res") else None
@@ -1321,14 +1659,63 @@ class FnGen:
             if r.ty is None or r.ty[0] != "int" or to is None or to[0] != "int":
                 self.err(e, ".try_into() from %r to %r (the target type must be known where it is written)" % (r.ty, to))
             return Val(r.kind, r.term, ("tryres", r.ty, to))
+        if self.sets and name in ("into", "to_string", "to_owned") and not e.args and e.recv.kind == "str" \
+                and (expect if expect is not None else getattr(self, "hint_ty", None)) == ("foreign", "String"):
+            return self.ex(e.recv, env, ("foreign", "String"))
+        if self.sets and name == "collect" and not e.args and e.recv.kind == "mcall" and e.recv.name == "map" and len(e.recv.args) == 1 \
+                and e.recv.args[0].kind == "closure" and len(e.recv.args[0].params) == 1 and e.recv.args[0].params[0].kind == "pvar":
+            # `v.iter().map(|x| f(x)).collect::<Result<Vec<_>, _>>()` with a closure that can fail: element by element, in
+            # order, up to the first error
+            base = self.ex(e.recv.recv, env)
+            if base.ty is not None and base.ty[0] == "vec":
+                cp = e.recv.args[0].params[0]
+                env2 = dict(env); env2[cp.name] = base.ty[1]
+                b = self.ex(e.recv.args[0].body, env2)
+                if b.ty is not None and b.ty[0] == "res":
+                    return self.seq([base], lambda ns: Val("M", "(k_map_m ops (fun %s => %s) %s)" % (mangle(cp.name), b.term, ns[0]), ("res", ("vec", b.ty[1]))))
         r = self.ex(e.recv, env)
         ty = r.ty
         if ty is None:
             self.err(e, "method call on a diverging expression")
         if name == "clone" and not e.args:
             return r
+        if self.sets and name == "unwrapper" and len(e.args) == 2 and e.args[0].kind == "path" and e.args[0].segs == ["self"] and self.skippable(e.args[1]):
+            # layout21utils Unwrapper: an Option's None / a Result's Err becomes the helper's error
+            if ty[0] == "opt":
+                return self.seq([r], lambda ns: Val("M", "(match %s with Some x__ => %s | None => (k_fail xops) end)" % (ns[0], self.ret("x__")), ("res", ty[1])))
+            if ty[0] == "res":
+                return r
+            self.err(e, ".unwrapper on a value of type %r" % (ty,))
+        if self.sets and name in ("copied", "cloned", "collect") and not e.args and ty[0] == "vec":
+            return r
+        if self.sets and name == "into" and not e.args:
+            to = expect if expect is not None else getattr(self, "hint_ty", None)
+            if to is not None and to[0] == "res":
+                to = to[1]
+            if to is not None and to != ty and to[0] in ("struct", "enum"):
+                conv = self.conversion(ty, to, r, env, e)
+                if conv is not None:
+                    return conv
         if self.x and name in self.TRANSPARENT and not e.args and ty[0] in ("vec", "opt", "struct", "enum", "foreign", "ptr"):
             return r
+        if self.sets and ty[0] == "hset":
+            if name == "contains" and len(e.args) == 1:
+                a = self.ex(e.args[0], env, ty[1])
+                self.same(ty[1], a.ty, e, ".contains")
+                return self.seq([r, a], lambda ns: Val("P", "(ks_contains %s %s %s)" % (opsvar(ty), ns[0], ns[1]), ("bool",)))
+            if name in ("insert", "remove"):
+                self.err(e, "HashSet::%s used for its value is in the subset only as the whole condition of an `if` (up to one `!`)" % name)
+            self.err(e, "HashSet method .%s is outside the subset" % name)
+        if self.sets and ty[0] == "hmap":
+            if name == "get" and len(e.args) == 1:
+                a = self.ex(e.args[0], env, ty[1])
+                self.same(ty[1], a.ty, e, ".get")
+                return self.seq([r, a], lambda ns: Val("P", "(km_get %s %s %s)" % (opsvar(ty), ns[0], ns[1]), ("opt", ty[2])))
+            if name == "contains_key" and len(e.args) == 1:
+                a = self.ex(e.args[0], env, ty[1])
+                self.same(ty[1], a.ty, e, ".contains_key")
+                return self.seq([r, a], lambda ns: Val("P", "(match km_get %s %s %s with Some _ => true | None => false end)" % (opsvar(ty), ns[0], ns[1]), ("bool",)))
+            self.err(e, "HashMap method .%s is outside the subset" % name)
         if ty[0] == "tryres":
             if name != "unwrap":
                 self.err(e, "only `.unwrap()` may follow try_from")
@@ -1386,6 +1773,8 @@ class FnGen:
                 if expect == ty:
                     return r
                 return self.seq([r], lambda ns: Val("M", "(i_cast ops %s %s %s)" % (tag(ty), tag(expect), ns[0]), expect))
+            if self.sets and "%s::%s" % (ty[1], name) in self.w.fns:
+                return self.emit_call(self.w.fns["%s::%s" % (ty[1], name)], e.args, r, env, e)
             self.err(e, "integer method .%s is outside the subset" % name)
         if ty == ("f64",):
             if name in ("round", "to_radians", "sin", "cos") and not e.args:
@@ -1399,6 +1788,8 @@ class FnGen:
                 if a.ty != ("int", "i32"):
                     self.err(e, ".powi exponent of type %r" % (a.ty,))
                 return self.seq([r, a], lambda ns: Val("M", "(f_powi ops %s %s)" % (ns[0], ns[1]), ty))
+            if self.sets and "f64::%s" % name in self.w.fns:
+                return self.emit_call(self.w.fns["f64::%s" % name], e.args, r, env, e)
             self.err(e, "f64 method .%s is outside the subset" % name)
         if ty[0] == "vec" and name == "len" and not e.args:
             return self.seq([r], lambda ns: Val("P", "(v_len ops %s)" % ns[0], ("int", "usize")))
@@ -1448,7 +1839,21 @@ class FnGen:
                 key = ty[1]
             if key is None:
                 self.err(e, "method .%s on %r" % (name, ty))
-            return self.emit_call(self.callee("%s::%s" % (key, name), e), e.args, r, env, e)
+            qn_ = "%s::%s" % (key, name)
+            if self.sets and len(self.w.overloads.get(qn_, [])) > 1:
+                # several declarations (a parameter `&impl Trait`, declared in the prelude at each type used): by the argument types
+                avs = [self.ex(a, env) for a in e.args]
+                hit = []
+                for f2 in self.w.overloads[qn_]:
+                    try:
+                        ps2 = [q for q in self.tr.signature(f2)["params"] if q[0] != "self"]
+                    except Unsupported:
+                        continue
+                    if len(ps2) == len(avs) and all(q[1] == a.ty for q, a in zip(ps2, avs)):
+                        hit.append(f2)
+                if len(hit) == 1:
+                    return self.emit_call(hit[0], e.args, r, env, e, arg_vals=avs)
+            return self.emit_call(self.callee(qn_, e), e.args, r, env, e)
         self.err(e, "method .%s on a value of type %r" % (name, ty))
 
     # ---- statements
@@ -1460,6 +1865,23 @@ class FnGen:
         if k == "let" and self.x and s.init.kind == "refmut" and s.pat.kind == "pvar" and s.ty is None and lvalue_root(s.init) is not None:
             # `let r = &mut place;`: r is the place (reads go to it, assignments through r are assignments to it)
             place = s.init.e
+            if self.sets:
+                # the index expressions of the place are evaluated, and the cell is looked up (bounds check), where the
+                # reference is TAKEN: effectful indices become locals first, then the place is read once
+                pre = []
+                def hoist(n):
+                    if n.kind == "index":
+                        hoist(n.e)
+                        if not (n.idx.kind in ("int",) or (n.idx.kind == "path" and len(n.idx.segs) == 1)):
+                            self.nhoist += 1
+                            nm = "ix__%d" % self.nhoist
+                            pre.append(N("let", s.line, pat=N("pvar", s.line, name=nm), ty=None, init=n.idx))
+                            n.idx = N("path", s.line, segs=[nm])
+                    elif n.kind in ("field", "tupidx"):
+                        hoist(n.e)
+                hoist(place)
+                if pre:
+                    return self.stmts(pre + [s] + list(rest), env, K)
             moved = set(assigned_roots(rest, [])) & (names_used(place, set()) - {lvalue_root(place)})
             if moved:
                 self.err(s, "the place behind `&mut` mentions %s, assigned while the reference lives" % sorted(moved))
@@ -1467,12 +1889,30 @@ class FnGen:
             if v.ty is None:
                 self.err(s, "`&mut` of a diverging expression")
             env2 = dict(env); env2[s.pat.name] = ("alias", place, v.ty)
+            if self.sets and v.kind == "M":
+                r_ = self.stmts(rest, env2, K)
+                return Val("M", "(k_bind ops %s (fun _ => %s))" % (v.term, self.toM(r_)), r_.ty)
             return self.stmts(rest, env2, K)
+        if k == "let" and self.sets and s.pat.kind in ("pvar", "pwild"):
+            # `let res = place.f(..)?;` where f changes the place and returns (): the call as a statement, then res = ()
+            r = self.mut_stmt(N("exprstmt", s.line, e=s.init, semi=True),
+                              [N("let", s.line, pat=s.pat, ty=None, init=N("tuple", s.line, es=[]))] + list(rest), env, K)
+            if r is not None:
+                return r
         if k == "let":
             expect = self.res(s.ty, s) if s.ty is not None else None
             if self.x and expect is None and s.pat.kind == "pvar":
                 # `let x = e.try_into()?;`: the target type is that of the parameter x is passed to
                 self.hint_ty = self.infer_from_use(s.pat.name, rest, env)
+                if self.sets and self.hint_ty is None and rest and rest[-1].kind == "exprstmt" and not rest[-1].semi:
+                    # .. or that of the function's value, when the block ends in `x` / `Ok(x)`
+                    t_ = rest[-1].e
+                    if t_.kind == "call" and t_.path == ["Ok"] and len(t_.args) == 1:
+                        t_ = t_.args[0]
+                    if t_.kind == "path" and t_.segs == [s.pat.name] and K.ret_ty is not None:
+                        self.hint_ty = Translator.plain(K.ret_ty)
+                if self.sets and self.hint_ty is not None and s.init.kind in ("match", "block", "if"):
+                    expect = self.hint_ty       # the value of the block flows into x
             v = self.ex(s.init, env, expect)
             self.hint_ty = None
             if expect is not None:
@@ -1483,6 +1923,10 @@ class FnGen:
                 self.err(s, "let bound to a diverging expression")
             if v.ty[0] == "res":
                 self.err(s, "a `let` bound to a Result (it must be consumed where it is produced: `?`, `.unwrap()`)")
+            if self.sets and v.ty[0] in ("opt", "vec") and v.ty[1] is None and s.pat.kind == "pvar":
+                t2 = self.infer_from_assign(s.pat.name, rest, env)
+                if t2 is not None and t2[0] == v.ty[0]:
+                    v = Val(v.kind, v.term, t2)
             if self.x and v.ty[0] in ("opt", "vec") and v.ty[1] is None:
                 self.err(s, "the type of this `let` cannot be determined here (annotate it)")
             if v.ty[0] == "tryres":
@@ -1497,6 +1941,16 @@ class FnGen:
             return K.ret(v, env)
         if k == "for":
             return self.for_(s, rest, env, K)
+        if k == "use" and self.sets:
+            if s.glob:
+                self.glob_enums.add(s.segs[-1])       # `use E::*;`: the variants of E may be written without `E::`
+            return self.stmts(rest, env, K)
+        if k == "while" and self.sets:
+            return self.while_(s, rest, env, K)
+        if k == "exprstmt" and self.sets:
+            r = self.mut_stmt(s, rest, env, K)
+            if r is not None:
+                return r
         if k == "exprstmt":
             e = s.e
             if self.x and e.kind == "mcall" and place_text(e.recv) in self.unit.get("skip_recv", ()):
@@ -1538,6 +1992,247 @@ class FnGen:
             return Val("M", "(k_bind ops %s (fun _ => %s))" % (v.term, self.toM(r)), r.ty)
         self.err(s, "statement kind %s is outside the subset" % k)
 
+    # ---- third part of the subset: sets, maps, `&mut` parameters, open recursion
+    def conversion(self, fr, to, v, env, node):
+        """`x.into()` from the type fr to the struct / enum `to`: a derived `From` (derive_more on an enum: the variant whose
+        payload has that type) or an `impl From<fr> for to` of the sources; None when there is none"""
+        if to[0] == "enum" and "From" in self.w.meta[to[1]]["derives"]:
+            hits = []
+            for vn, kind, fields in self.w.enums[to[1]]:
+                if kind == "tuple" and len(fields) == 1:
+                    k_, tys, _ = self.tr.variant(to[1], vn, node, self)
+                    if tys[0] == fr:
+                        hits.append(vn)
+            if len(hits) == 1:
+                self.structs_used.add(to[1])
+                return self.seq([v], lambda ns: Val("P", "(@g%s_%s F I %s)" % (to[1], hits[0], ns[0]), to))
+        for f2 in self.w.overloads.get("%s::from" % to[1], []):
+            try:
+                ps2 = self.tr.signature(f2)["params"]
+            except Unsupported:
+                continue
+            if len(ps2) == 1 and ps2[0][1] == fr:
+                sig = self.tr.signature(f2)
+                if self.is_extern(f2):
+                    head = "ext_" + self.tr.uname(f2).replace("::", "_")
+                    self.tr.use_extern(f2, self)
+                else:
+                    self.tr.need_fn(f2)
+                    head = "g_" + self.tr.uname(f2).replace("::", "_")
+                return self.seq([v], lambda ns: Val("M", "(%s %s)" % (head, ns[0]), sig["ret"]))
+        return None
+
+    def infer_from_assign(self, name, rest, env):
+        """the type of the first value assigned to the local `name` in rest (`name = e;`), or None"""
+        found = []
+        def walk(n):
+            if found:
+                return
+            if isinstance(n, N):
+                if n.kind == "assign" and n.op == "=" and n.lhs.kind == "path" and n.lhs.segs == [name]:
+                    try:
+                        t = self.ex(n.rhs, env).ty
+                    except Unsupported:
+                        t = None
+                    if t is not None:
+                        found.append(t)
+                    return
+                for k_, v_ in n.__dict__.items():
+                    if k_ not in ("kind", "line"):
+                        walk(v_)
+            elif isinstance(n, (list, tuple)):
+                for x in n:
+                    walk(x)
+        walk(rest)
+        return found[0] if found else None
+
+    def place_ty(self, node, env):
+        """the type of a place expression (None when it is not a chain of fields / indices from a local)"""
+        if lvalue_root(node) is None or lvalue_root(node) not in env:
+            return None
+        try:
+            return self.ex(node, env).ty
+        except Unsupported:
+            return None
+
+    def hoist_set_cond(self, e, rest, env, K):
+        """`if [!] s.insert(x) {..}` / `if [!] s.remove(x) {..}`: the value of the call is read off the set BEFORE the update"""
+        c, neg = e.cond, False
+        if c.kind == "un" and c.op == "!":
+            c, neg = c.e, True
+        if not (c.kind == "mcall" and c.name in ("insert", "remove") and len(c.args) == 1):
+            return None
+        t = self.place_ty(c.recv, env)
+        if t is None or t[0] != "hset":
+            return None
+        self.nhoist += 1
+        hn = "h__%d" % self.nhoist
+        l = e.line
+        was_in = N("path", l, segs=[hn])
+        # insert: value = !contained ; remove: value = contained
+        val_is_neg = (c.name == "insert")
+        cond = was_in if (val_is_neg == neg) else N("un", l, op="!", e=was_in)
+        pre = [N("let", l, pat=N("pvar", l, name=hn), ty=None,
+                 init=N("mcall", l, recv=c.recv, name="contains", args=list(c.args), turbo=False)),
+               N("exprstmt", l, e=c, semi=True)]
+        e2 = N("if", l, letvar=None, letpat=None, cond=cond, then=e.then, els=e.els)
+        if rest is None:
+            return self.stmts(pre + [N("exprstmt", l, e=e2, semi=False)], env, K)
+        return self.stmts(pre + [N("exprstmt", l, e=e2, semi=True)] + list(rest), env, K)
+
+    def store(self, place, newv, rest, env, K, node):
+        """assign the (possibly effectful) value newv to the place, then the rest"""
+        root = lvalue_root(place)
+        if root is None or root not in env:
+            self.err(node, "a `&mut` argument that is not a place rooted at a local")
+        if env[root] is not None and env[root][0] == "alias":
+            place = self.subst_root(place, env[root][1])
+            root = lvalue_root(place)
+        if root in self.mut_params:
+            self.mut_self = True
+        newroot = self.seq([newv], lambda ns: self.upd(place, ns[0], env))
+        return self.let_(N("pvar", node.line, name=root), newroot, lambda env2: self.stmts(rest, env2, K), env, node)
+
+    def callee_of_call(self, e):
+        """the function item a path call refers to, or None"""
+        segs = e.path
+        if len(segs) > 2 and all(x[:1].islower() for x in segs[:-2]):
+            segs = segs[-2:]
+        if len(segs) == 1:
+            qn = segs[0]
+        elif len(segs) == 2:
+            head = segs[0]
+            if head == "Self" and self.self_ty is not None and self.self_ty[0] in ("struct", "enum", "foreign"):
+                head = self.self_ty[1]
+            qn = "%s::%s" % (head, segs[1])
+        else:
+            return None
+        f = self.w.fns.get(qn)
+        return None if (f is None or f.clash) else f
+
+    def mut_stmt(self, s, rest, env, K):
+        """statements that change a place through a call: set / map mutators, calls of functions with a `&mut` parameter"""
+        e = s.e
+        tried = e.kind == "try"
+        c = e.e if tried else e
+        if c.kind == "mcall" and c.name == "unwrapper" and len(c.args) == 2 and self.skippable(c.args[1]) and c.recv.kind in ("mcall", "call"):
+            c = c.recv          # `x.f(..).unwrapper(self, msg)?`: the error is converted, the value is that of the call
+        if c.kind == "mcall" and not tried and c.name == "extend" and len(c.args) == 1:
+            t = self.place_ty(c.recv, env)
+            if t is not None and t[0] == "vec":
+                cur = self.ex(c.recv, env)
+                a = self.ex(c.args[0], env, t)
+                self.same(t, a.ty, c, ".extend")
+                newv = self.seq([cur, a], lambda ns: Val("P", "(app %s %s)" % (ns[0], ns[1]), t))
+                return self.store(c.recv, newv, rest, env, K, s)
+            return None
+        if c.kind == "mcall" and not tried and c.name in ("insert", "remove"):
+            t = self.place_ty(c.recv, env)
+            if t is not None and t[0] == "hset" and len(c.args) == 1:
+                cur = self.ex(c.recv, env)
+                a = self.ex(c.args[0], env, t[1])
+                self.same(t[1], a.ty, c, "." + c.name)
+                newv = self.seq([cur, a], lambda ns: Val("P", "(ks_%s %s %s %s)" % (c.name, opsvar(t), ns[0], ns[1]), t))
+                return self.store(c.recv, newv, rest, env, K, s)
+            if t is not None and t[0] == "hmap" and c.name == "insert" and len(c.args) == 2:
+                cur = self.ex(c.recv, env)
+                a = self.ex(c.args[0], env, t[1])
+                b = self.ex(c.args[1], env, t[2])
+                self.same(t[1], a.ty, c, ".insert (key)")
+                self.same(t[2], b.ty, c, ".insert (value)")
+                newv = self.seq([cur, a, b], lambda ns: Val("P", "(km_insert %s %s %s %s)" % (opsvar(t), ns[0], ns[1], ns[2]), t))
+                return self.store(c.recv, newv, rest, env, K, s)
+            return None
+        f, pairs = None, None
+        if c.kind == "mcall":
+            t = self.place_ty(c.recv, env)
+            if t is None or t[0] not in ("struct", "enum", "foreign"):
+                return None
+            f = self.w.fns.get("%s::%s" % (t[1], c.name))
+            if f is None or f.clash:
+                return None
+            nodes = [c.recv] + list(c.args)
+        elif c.kind == "call":
+            f = self.callee_of_call(c)
+            if f is None:
+                return None
+            nodes = list(c.args)
+        else:
+            return None
+        sig = self.tr.signature(f)
+        mn = sig.get("mut_name")
+        if mn is None:
+            return None
+        params = sig["params"]
+        if len(params) != len(nodes):
+            self.err(c, "%s takes %d arguments, %d given" % (f.name, len(params), len(nodes)))
+        if sig["mut_res"] and not tried:
+            self.err(s, "the Result of %s is not used" % f.name)
+        if not sig["mut_res"] and tried:
+            self.err(s, "`?` on %s, which returns ()" % f.name)
+        vals, place = [], None
+        for (pn, pt), a in zip(params, nodes):
+            if pn == mn:
+                place = a.e if a.kind == "refmut" else a
+            v = self.ex(a, env, pt)
+            self.same(pt, v.ty, c, "argument %s of %s" % (pn, f.name))
+            vals.append(v)
+        pty = dict(params)[mn]
+        if f is self.fn:
+            # the function calls itself: open recursion through a Section variable
+            head = "rec_" + self.tr.uname(f).replace("::", "_")
+            self.tr.use_extern(f, self, name=head)
+        elif self.is_extern(f):
+            head = "ext_" + self.tr.uname(f).replace("::", "_")
+            self.tr.use_extern(f, self)
+        else:
+            self.tr.need_fn(f)
+            head = "g_" + self.tr.uname(f).replace("::", "_")
+        newv = self.seq(vals, lambda ns: Val("M", "(%s %s)" % (head, " ".join(ns)), pty))
+        return self.store(place, newv, rest, env, K, s)
+
+    def while_(self, s, rest, env, K):
+        self.err(s, "`while` / `loop` are parsed but not translated yet")
+
+    def assigned_x(self, body):
+        """the roots a loop body assigns, calls that change a place included"""
+        acc = assigned_roots(body, [])
+        if not self.sets:
+            return acc
+        def walk(n):
+            if isinstance(n, N):
+                if n.kind == "mcall" and n.name in ("remove", "extend"):
+                    r = lvalue_root(n.recv)
+                    if r:
+                        acc.append(r)
+                if n.kind == "refmut":
+                    # a `&mut` borrow of a place (an argument, or `let r = &mut place;`): what is borrowed may change
+                    r = lvalue_root(n)
+                    if r:
+                        acc.append(r)
+                if n.kind == "mcall" and n.recv.kind == "path" and len(n.recv.segs) == 1:
+                    for lst in self.w.overloads.values():
+                        if any(f2.short == n.name and any(pn == "self" and m for pn, _, m in f2.params)
+                               and (f2 is self.fn or self.tr.really_mut(f2, None)) for f2 in lst):
+                            acc.append(n.recv.segs[0])
+                            break
+                if n.kind == "call":
+                    f2 = self.callee_of_call(n)
+                    if f2 is not None:
+                        ps2 = [q for q in f2.params if q[0] != "self"]
+                        for i, a in enumerate(n.args):
+                            a0 = a.e if a.kind == "refmut" else a
+                            if i < len(ps2) and ps2[i][2] and lvalue_root(a0):
+                                acc.append(lvalue_root(a0))
+                for k_, v_ in n.__dict__.items():
+                    if k_ not in ("kind", "line"):
+                        walk(v_)
+            elif isinstance(n, (list, tuple)):
+                for x in n:
+                    walk(x)
+        walk(body)
+        return acc
+
     def as_stmts(self, lst):
         """a block whose value is not used: its tail expression is a statement"""
         if lst and lst[-1].kind == "exprstmt" and not lst[-1].semi:
@@ -1556,6 +2251,10 @@ class FnGen:
 
     def if_(self, e, rest, env, K):
         """`if` whose continuation is `rest` (None: the if is the value of the block)"""
+        if self.sets and e.letvar is None and getattr(e, "letpat", None) is None:
+            h = self.hoist_set_cond(e, rest, env, K)
+            if h is not None:
+                return h
         tail = rest is None
         rest = rest or []
         then = list(e.then.stmts)
@@ -1602,13 +2301,34 @@ class FnGen:
         found = []
         def is_me(a):
             return a.kind == "path" and a.segs == [name]
+        def inside(a, pt):
+            """the local sits inside the argument a (tuples, array / vec literals) of a parameter of type pt"""
+            if is_me(a):
+                found.append(pt)
+                return True
+            if a.kind == "refmut":
+                return inside(a.e, pt)
+            if a.kind == "tuple" and pt is not None and pt[0] == "tup" and len(pt[1]) == len(a.es):
+                return any(inside(x, t) for x, t in zip(a.es, pt[1]))
+            if a.kind in ("array", "veclit") and pt is not None and pt[0] in ("vec", "arr"):
+                return any(inside(x, pt[1]) for x in a.es)
+            return False
         def walk(n):
             if found:
                 return
             if isinstance(n, N):
                 try:
+                    if self.sets and n.kind == "call" and not any(is_me(a) for a in n.args):
+                        f2 = self.callee_of_call(n)
+                        if f2 is not None:
+                            ps = [p_ for p_ in self.tr.signature(f2)["params"] if p_[0] != "self"]
+                            for a, (pn, pt) in zip(n.args, ps):
+                                if inside(a, pt):
+                                    return
                     if n.kind == "call" and any(is_me(a) for a in n.args):
                         segs = n.path
+                        if self.sets and len(segs) > 2 and all(x[:1].islower() for x in segs[:-2]):
+                            segs = segs[-2:]
                         qn = None
                         if len(segs) == 1:
                             qn = segs[0]
@@ -1623,8 +2343,11 @@ class FnGen:
                                 if is_me(a):
                                     found.append(pt)
                                     return
-                    if n.kind == "structlit" and n.name in self.w.structs:
-                        kept = dict(self.tr.literal_fields(n.name))
+                    sl_name = n.name if n.kind == "structlit" else None
+                    if sl_name == "Self" and self.sets and self.self_ty is not None and self.self_ty[0] == "struct":
+                        sl_name = self.self_ty[1]
+                    if n.kind == "structlit" and sl_name in self.w.structs:
+                        kept = dict(self.tr.literal_fields(sl_name))
                         for f, x in n.fields:
                             if is_me(x) and f in kept:
                                 found.append(kept[f])
@@ -1718,7 +2441,7 @@ class FnGen:
                     pass
                 if al != ty:
                     self.err(node, "pattern %s against the enum %s" % ("::".join(segs), en))
-            if head is None:
+            if head is None and not (en in self.glob_enums and any(v[0] == segs[0] for v in self.w.enums[en])):
                 self.err(node, "pattern %s against the enum %s (write the variant with its enum)" % (segs[0], en))
             vkind, tys, names = self.tr.variant(en, segs[-1], node, self)
             if k == "ppath":
@@ -1963,7 +2686,7 @@ class FnGen:
         if env[root] is not None and env[root][0] == "alias":
             lhs = self.subst_root(lhs, env[root][1])
             root = lvalue_root(lhs)
-        if root == "self":
+        if root in self.mut_params:
             self.mut_self = True
         cur = self.ex(lhs, env)
         if cur.ty is None:
@@ -2027,10 +2750,10 @@ class FnGen:
         lv = s.pat.name
         bound_in = let_names(body, set()) | {lv}
         state = []
-        for r in assigned_roots(body, []):
+        for r in self.assigned_x(body):
             if r in env and r not in bound_in and r not in state:
                 state.append(r)
-        if "self" in state:
+        if any(n in state for n in self.mut_params):
             self.mut_self = True
         if lv in names_used(rest, set()) and lv in env:
             self.err(s, "the loop variable %s shadows a name used after the loop" % lv)
@@ -2044,7 +2767,7 @@ class FnGen:
             return "tt" if not names else "(" + ", ".join(mangle(n) for n in names) + ")" if len(names) > 1 else mangle(names[0])
         s_cty = "unit" if not state else cty(("tup", tuple(st_ty))) if len(state) > 1 else cty(st_ty[0])
         plain_ret = Translator.plain(K.ret_ty) if self.x else K.ret_ty
-        if self.x and "self" in state and self.mut_self_sig and has_kind(body, "return"):
+        if self.x and self.mut_name in state and self.mut_self_sig and has_kind(body, "return"):
             self.err(s, "`return` inside a loop that assigns to self, in a `&mut self` method")
         r_cty = cty(plain_ret) if plain_ret is not None else "unit"
         benv = dict(env); benv[lv] = vty
@@ -2058,7 +2781,10 @@ class FnGen:
         bodyf = "(fun %s st__ => %s%s %s st__)" % (mangle(lv), lname, "".join(" " + mangle(n) for n in free), mangle(lv))
         after_env = dict(env)
         after = self.stmts(rest, after_env, K)
-        if self.x and K.ret_ty is not None and K.ret_ty[0] == "res":
+        if self.sets and isinstance(K, KValue) and not has_kind(body, "return"):
+            # a loop inside a block used as a value, without `return` in its body: it never leaves through Brk
+            brk = Val("M", "(k_panic ops)", None)
+        elif self.x and K.ret_ty is not None and K.ret_ty[0] == "res":
             brk = K.ret(Val("M", "(k_ret ops v__)", K.ret_ty), env)
         else:
             brk = K.ret(Val("P", "v__", K.ret_ty), env)
@@ -2097,13 +2823,14 @@ class KFn:
     def end(self, v, env):
         if v is None:
             if self.g.mut_self_sig:
-                return Val("P", "self", env["self"])
+                return Val("P", mangle(self.g.mut_name), env[self.g.mut_name])
             return Val("P", "tt", ("unit",))
         if getattr(self.g, "mut_res_sig", False):
             # `&mut self` .. -> Result<()>: `Ok(())` gives the new self, an error stays the error
+            mn = self.g.mut_name
             if v.fail:
-                return Val("M", v.term, ("res", env["self"]), fail=True)
-            return Val("M", "(k_bind ops %s (fun _ => (k_ret ops self)))" % self.g.toM(v), ("res", env["self"]))
+                return Val("M", v.term, ("res", env[mn]), fail=True)
+            return Val("M", "(k_bind ops %s (fun _ => (k_ret ops %s)))" % (self.g.toM(v), mangle(mn)), ("res", env[mn]))
         return v
     def ret(self, v, env):
         return self.end(v, env)
@@ -2144,12 +2871,13 @@ class Translator:
         self.structs_used = set()
         self.sigs = {}
         self.used_prev = used_prev       # (struct, field) pairs used in the previous pass; None in the first pass
-        self.used = set()
+        self.used = {(sn, fn) for sn, fns in self.unit.get("keep_fields", {}).items() for fn in fns}    # fields kept although no translated function reads them
         self.kept_cache = {}
         self.variant_cache = {}
         self.derived_cache = {}
         self.enum_eq = set()
         self.foreign_used = set()
+        self.ops_used = {}               # Section variable of set / map operations -> its type
         self.externs_used = {}           # ext name -> Gallina type
         self.file_list = [r[0] if isinstance(r, tuple) else r for r in self.unit["files"]]
 
@@ -2236,8 +2964,8 @@ class Translator:
         self.derived_cache[key] = f
         return f
 
-    def use_extern(self, f, g):
-        name = "ext_" + self.uname(f).replace("::", "_")
+    def use_extern(self, f, g, name=None):
+        name = name or "ext_" + self.uname(f).replace("::", "_")
         if name not in self.externs_used:
             sig = self.signature(f)
             for _, pt in sig["params"]:
@@ -2262,7 +2990,7 @@ class Translator:
         if f.ret is None:
             raise Unsupported("%s: return type outside the subset (%s)" % (where, f.ret_bad))
         ctx = self.w.fn_ctx(f) if self.x else Ctx(f.self_ty)
-        ps, mut_self = [], False
+        ps, mut_self, mut_others = [], False, []
         for pn, pt, m in f.params:
             if pn is None:
                 raise Unsupported("%s: a parameter type is outside the subset" % where)
@@ -2279,12 +3007,36 @@ class Translator:
                     ps.append((pn, self.w.resolve(pt, ctx)))
                 except Unsupported as ex:
                     raise Unsupported("%s: parameter %s: %s" % (where, pn, ex))
+                if m and self.unit.get("sets"):
+                    mut_others.append(pn)
         try:
             ret = self.w.resolve(f.ret, ctx)
         except Unsupported as ex:
             raise Unsupported("%s: return type: %s" % (where, ex))
         mut_res = False
-        if mut_self:
+        mut_name = "self" if mut_self else None
+        if self.unit.get("sets") and ret in (("unit",), ("res", ("unit",))):
+            # third part of the subset: ONE parameter borrowed `&mut` (self or another) that the body changes, in a function
+            # returning `()` / `Result<()>`: the function returns its new value.  A declaration without body changes it.
+            cands = (["self"] if mut_self else []) + mut_others
+            if f.body_range is not None:
+                body_ = parse_fn_body(f)
+                self.sig_busy = getattr(self, "sig_busy", set()) | {id(f)}
+                try:
+                    cands = [c for c in cands if self.mutates(body_, c, f)]
+                finally:
+                    self.sig_busy.discard(id(f))
+            if len(cands) > 1:
+                raise Unsupported("%s: the body changes more than one `&mut` parameter (%s)" % (where, ", ".join(cands)))
+            mut_name = cands[0] if cands else None
+            mut_self = mut_name is not None
+            if mut_self:
+                pty = dict(ps)[mut_name]
+                if ret == ("unit",):
+                    ret = pty
+                else:
+                    ret, mut_res = ("res", pty), True
+        elif mut_self:
             if self.x and ret == ("res", ("unit",)) and f.body_range is not None and mutates_self(parse_fn_body(f), self.unit.get("skip_recv", ())):
                 # `&mut self` with `Result<()>` that assigns to self: the new self, or the error
                 ret = ("res", ps[0][1])
@@ -2295,9 +3047,54 @@ class Translator:
                 mut_self = False          # read as `&self`: the body is checked not to assign to self
             else:
                 ret = ps[0][1]
-        sig = {"params": ps, "ret": ret, "mut_self": mut_self, "mut_res": mut_res}
+        sig = {"params": ps, "ret": ret, "mut_self": mut_self, "mut_res": mut_res, "mut_name": mut_name if mut_self else None,
+               "mut_params": (["self"] if any(pn == "self" and m for pn, _, m in f.params) else []) + mut_others}
         self.sigs[key] = sig
         return sig
+
+    def really_mut(self, f2, me):
+        """does the `&mut self` method f2 change its receiver (as far as its own signature tells)?"""
+        if f2 is me:
+            return False            # the function itself: no evidence either way
+        if id(f2) in getattr(self, "sig_busy", ()):
+            return True
+        try:
+            return self.signature(f2).get("mut_name") == "self"
+        except Unsupported:
+            return True
+
+    def mutates(self, node, name, me=None):
+        """does this body change the `&mut` parameter `name`: an assignment / Vec or set mutator rooted at it, `&mut name..`,
+        a call of a method on `name` itself, or `name` passed to a parameter declared `&mut`"""
+        skip = self.unit.get("skip_recv", ())
+        def walk(n):
+            if isinstance(n, N):
+                if n.kind == "assign" and n.lhs.kind != "tuple" and lvalue_root(n.lhs) == name:
+                    return True
+                if n.kind == "mcall" and n.name in MUTATORS + ("remove",) and lvalue_root(n.recv) == name and place_text(n.recv) not in skip:
+                    return True
+                if n.kind == "mcall" and n.recv.kind == "path" and n.recv.segs == [name]:
+                    # a method called on the borrowed value itself: a `&mut self` method of the sources changes it
+                    for lst in self.w.overloads.values():
+                        for f2 in lst:
+                            if f2.short == n.name and any(pn == "self" and m for pn, _, m in f2.params) and self.really_mut(f2, me):
+                                return True
+                if n.kind == "refmut" and lvalue_root(n) == name:
+                    return True
+                if n.kind == "call":
+                    for i, a in enumerate(n.args):
+                        a0 = a.e if a.kind == "refmut" else a
+                        if a0.kind == "path" and a0.segs == [name]:
+                            qn = "::".join(n.path[-2:])
+                            for f2 in self.w.overloads.get(qn, []):
+                                ps2 = [q for q in f2.params if q[0] != "self"]
+                                if i < len(ps2) and ps2[i][2]:
+                                    return True
+                return any(walk(v) for k, v in n.__dict__.items() if k not in ("kind", "line"))
+            if isinstance(n, (list, tuple)):
+                return any(walk(x) for x in n)
+            return False
+        return walk(node)
 
     def need(self, qn):
         if qn not in self.w.fns:
@@ -2320,7 +3117,11 @@ class Translator:
         g = FnGen(self, f)
         g.mut_self_sig = sig["mut_self"]
         g.mut_res_sig = sig.get("mut_res", False)
+        g.mut_name = sig.get("mut_name") or "self"
+        g.mut_params = sig.get("mut_params") or ["self"]
         body = parse_fn_body(f)
+        if g.sets:
+            rename_shadowing_loops(body, {pn for pn, _ in sig["params"]}, [0])
         env = {}
         for pn, pt in sig["params"]:
             env[pn] = pt
@@ -2362,7 +3163,8 @@ class Translator:
         """records and inductive types, each after the types it mentions"""
         out, seen = [], set()
         self.type_args = []          # (type name, [Arguments lines]) in emission order, repeated after the Section
-        self.fdeps = {}              # type name -> foreign types it mentions (they become leading parameters after the Section)
+        self.fdeps = {}              # type name -> Section variables it mentions (they become leading parameters after the Section)
+        self.ops_declared = []       # the Section variables of set / map operations, in the order declared
         cur = []
         def visit_ty(t):
             if t is None:
@@ -2372,13 +3174,34 @@ class Translator:
                 if cur:
                     self.fdeps[cur[-1]] |= self.fdeps.get(t[1], set())
             elif t[0] == "foreign":
+                self.foreign_used.add(t[1])
                 if cur:
-                    self.fdeps[cur[-1]].add(t[1])
+                    self.fdeps[cur[-1]].add("T_" + t[1])
             elif t[0] in ("arr", "vec", "opt", "res"):
                 visit_ty(t[1])
             elif t[0] == "tup":
                 for x in t[1]:
                     visit_ty(x)
+            elif t[0] in ("hset", "hmap"):
+                # the operations of the sets / maps of this key type: a Section variable, declared after the types it mentions
+                var = opsvar(t)
+                if var not in self.fdeps:
+                    self.fdeps[var] = set()
+                    cur.append(var)
+                    for x in t[1:]:
+                        visit_ty(x)
+                    cur.pop()
+                    if " F I)" in " ".join(cty(x) for x in t[1:]):
+                        # the variable's type mentions a generated type at the Section's own F and I: after the Section
+                        # they are two more leading parameters of everything that mentions the variable
+                        self.fdeps[var] |= {"F", "I"}
+                    self.ops_declared.append(var)
+                    if t[0] == "hset":
+                        out.append("(* HashSet<%s> *)\nVariable %s : ksetops %s.\n" % (type_key(t[1]), var, cty(t[1])))
+                    else:
+                        out.append("(* HashMap<%s, %s> *)\nVariable %s : kmapops %s %s.\n" % (type_key(t[1]), type_key(t[2]), var, cty(t[1]), cty(t[2])))
+                if cur:
+                    self.fdeps[cur[-1]] |= self.fdeps[var] | {var}
         def visit(name):
             if name in seen:
                 return
@@ -2434,6 +3257,8 @@ class Translator:
                 name, " _" * len(fields), "".join("Arguments g%s_%s {F I} _.\n" % (name, fn) for fn, _ in fields)))
         for s_ in sorted(self.structs_used):
             visit(s_)
+        for var in sorted(self.ops_used):
+            visit_ty(self.ops_used[var])
         return out
     struct_defs = type_defs
 
@@ -2483,9 +3308,11 @@ def run_unit(unit):
              "    external and types of other crates are the Section variables ext_* / T_*. The translation scheme is",
              "    described in Base/KernelOps.v, Base/KernelOpsX.v and in the translator. *)",
              "From Coq Require Import ZArith Bool List.",
-             "From L21 Require Import Base.KernelOps Base.KernelOpsX.",
+             "From L21 Require Import Base.KernelOps Base.KernelOpsX%s." % (" Base.KernelOpsS" if unit.get("sets") else ""),
              "",
              ]
+        if getattr(tr, "need_string", False):
+            L.insert(-2, "From Coq Require Import String.")
         L += ["Section Kernels.",
               "Context {M : Type -> Type} {F I : Type} (xops : kxops M F I).",
               "Notation ops := (kx_base xops).",
@@ -2504,8 +3331,11 @@ def run_unit(unit):
     L += ["End Kernels.", ""]
     if unit.get("xops"):
         L.append("(* the implicit arguments of the constructors and projections, as inside the Section *)")
+        var_order = ["F", "I"] + ["T_" + n for n in sorted(tr.foreign_used)] + tr.ops_declared
         for name, lines in tr.type_args:
-            pre = "".join(" T_" + n for n in sorted(tr.fdeps.get(name, ())))
+            pre = "".join(" " + v for v in var_order[2:] if v in tr.fdeps.get(name, ()))
+            if "F" in tr.fdeps.get(name, ()):
+                pre = " {F I}" + pre        # the Section's own F and I (implicit, as for the functions)
             for l in lines:
                 L.append(l.strip().replace(" {F I}", pre + " {F I}", 1))
         L.append("")
